@@ -2,4 +2,5 @@ CONSTANTS Q = 17 N = 4 ZETA = 2 D = 2 KK = 1 LL = 1 ETA = 1 TAU = 1 GAMMA1 = 4 G
 CONSTANTS KeyStride = 27
 SPECIFICATION Spec
 INVARIANT Complete
+INVARIANT CanTerminate
 CHECK_DEADLOCK FALSE
